@@ -1434,10 +1434,14 @@ func asUncatchableException(v interface{}) error {
 func (r *Runtime) RunProgram(p *Program) (result Value, err error) {
 	vm := r.vm
 	recursive := len(vm.callStack) > 0
+	ctxPushed := false
 	defer func() {
 		if recursive {
-			vm.sp -= 2
-			vm.popCtx()
+			// pushCtx() below may fail with a StackOverflowError, in which case there is nothing to pop
+			if ctxPushed {
+				vm.sp -= 2
+				vm.popCtx()
+			}
 		} else {
 			vm.callStack = vm.callStack[:len(vm.callStack)-1]
 		}
@@ -1454,6 +1458,7 @@ func (r *Runtime) RunProgram(p *Program) (result Value, err error) {
 	}()
 	if recursive {
 		vm.pushCtx()
+		ctxPushed = true
 		vm.stash = &r.global.stash
 		vm.privEnv = nil
 		vm.newTarget = nil
@@ -2853,6 +2858,10 @@ func (r *Runtime) leave() {
 func (r *Runtime) leaveAbrupt() {
 	r.jobQueue = nil
 	r.ClearInterrupt()
+	// the unwinding has restored the stack pointers, but not the rest of what the normal exit path resets
+	r.vm.prg = nil
+	r.vm.sb = -1
+	r.vm.stack = nil
 }
 
 func nilSafe(v Value) Value {
